@@ -107,7 +107,7 @@ where
     F: IVP,
 {
     // Handle zero-interval case: when x0 == xend, return immediately with initial state
-    if (xend - x0).abs() < 1e-15 {
+    if xend == x0 {
         // If t_eval is provided, return all t_eval points that match x0
         let (t, y) = if let Some(ref t_eval) = options.t_eval {
             let matching: Vec<_> = t_eval.iter()
